@@ -15,7 +15,7 @@ UNDECIDED = ["documents and renderings beyond the enumerated product (one logica
              "typedef blocks written on a single line (not among the listed renderings; the column-type regex is greedy across columns there)",
              "unbounded strings / whole-file regular expressions for arbitrary inputs: not decided by proof"]
 
-LAYOUT = ["comment_lines", "trailing_comments", "blank_lines", "tabs", "crlf", "continuation", "quoting", "angle_brackets", "row_case", "interleave"]
+LAYOUT = ["comment_lines", "trailing_comments", "blank_lines", "tabs", "crlf", "continuation", "quoting", "angle_brackets", "row_case", "interleave", "indent"]
 
 
 def logical_document(names=("OBJ", "EXP")):
@@ -39,8 +39,8 @@ def render(doc, opts, rng_bits=0):
     lines = ["#%yanny"]
     if o["comment_lines"]:
         lines.append("# a comment line")
-    for k, v in doc["pairs"]:
-        lines.append(k + sep + v)
+    for pi, (k, v) in enumerate(doc["pairs"]):
+        lines.append(("   " if (o["indent"] and pi % 2) else "") + k + sep + v)
         if o["blank_lines"]:
             lines.append("")
         if o["comment_lines"]:
@@ -105,6 +105,8 @@ def render(doc, opts, rng_bits=0):
             line = sep.join(toks)
         if o["trailing_comments"]:
             line += "  # trailing \"quoted\" comment" if ri % 2 else "   # plain"
+        if o["indent"]:
+            line = ["  ", "\t", ""][ri % 3] + line
         lines.append(line)
         if o["blank_lines"] and ri % 2:
             lines.append("   ")
